@@ -120,5 +120,6 @@ def run(ck, ctx):
     ck.include("C36", ctx, "C07.5", {"C36.1", "C36.3", "C36.4"}, "the printed instruction must reparse to the same instruction")
     ck.include("C01", ctx, "C07.6", {"C01.1", "C01.2"}, "reassembly uses the encoder rows and the alias expansion")
     ck.include("C05", ctx, "C07.7", {"C05.1", "C05.3", "C05.5"}, "printed operands are read back by the numeric/register validators and field conversions")
+    ck.include("C02", ctx, "C07.8", {"C02.2"}, "'assembled at any address': which origins pass 1 accepts (a block may end exactly at xFE00)")
     ck.assume("Display of AsmInstr/Directive and the parser agree (C36), keyword/operand parsing (C03, C05), encode/decode inverse (C06), alias expansion (C01)")
     ck.assume("logos overlap resolution between token kinds is trusted")
